@@ -316,7 +316,7 @@ def _sys_history(args):
             ver = r.choice(G.VERSIONS)
             v10 = ver[0] * 10 + ver[1]
             k = r.random()
-            if k > 0.95 and uids:
+            if k > 0.93 and uids:
                 sysm.stop()
                 sysm.start()
                 steps.append({"kind": "restart"})
@@ -330,14 +330,21 @@ def _sys_history(args):
             try:
                 if k < 0.35 or not uids:
                     obj, spec = rnd_object(r, rsa)
+                    extra = None
                     try:
-                        uid = cl.register(obj)
+                        if r.random() < 0.5 and ver < (2, 0):
+                            extra = {"groups": [r.choice(["og1", "og2", "og3"]) for _ in range(r.choice([1, 1, 2]))],
+                                     "appinfo": [(r.choice(["ns1", "ns2"]), r.choice(["d1", "d2"])) for _ in range(r.choice([0, 1]))],
+                                     "sensitive": False}
+                            uid = register_with_attributes(cl, obj, extra, ver)
+                        else:
+                            uid = cl.register(obj)
                     except Exception as e:
                         skipped += 1
                         steps.append({"kind": "noop", "why": "register refused: %s" % str(e)[:80], "otype": TYPENAME[type(obj)], "ver": v10})
                         continue
                     u = A.to_uid(uid)
-                    o, rec, x = supplied(obj, spec, u, intern, idate(u), "alice", None)
+                    o, rec, x = supplied(obj, spec, u, intern, idate(u), "alice", extra)
                     steps.append({"kind": "put", "uid": u, "rec": o, "x": x, "gen": False, "ver": v10})
                     uids.append(u)
                 elif k < 0.42:
